@@ -37,3 +37,44 @@ func builtInCallProp(
 		return ret
 	}
 }
+
+// builtInSendProp works same as prop call `obj.prop(*args, **kwargs)`
+// (unlike builtInCallProp, `_missing` and NoPropErr are also handled).
+func builtInSendProp(
+	env *object.Env,
+	kwargs *object.PanObj,
+	args ...object.PanObject,
+) object.PanObject {
+	if len(args) < 3 {
+		return object.NewTypeErr("requires at least 3 args")
+	}
+
+	obj := args[1]
+	propName, ok := object.TraceProtoOfStr(args[2])
+	if !ok {
+		return object.NewTypeErr("prop name must be str")
+	}
+
+	prop, isMissing := evalProp(propName.Value, obj)
+	if err, ok := prop.(*object.PanErr); ok {
+		return err
+	}
+
+	// (recv, args_for_call...)
+	argsToPass := []object.PanObject{obj}
+	if isMissing {
+		// `_missing` receives prop name
+		argsToPass = append(argsToPass, propName)
+	}
+	argsToPass = append(argsToPass, args[3:]...)
+
+	switch f := prop.(type) {
+	case *object.PanFunc:
+		return evalPanFuncCall(f, env, kwargs, argsToPass...)
+	case *object.PanBuiltIn:
+		return f.Fn(env, kwargs, argsToPass...)
+	default:
+		// not callable
+		return prop
+	}
+}
